@@ -33,9 +33,17 @@ impl<T, E: std::fmt::Debug> HqUnwrap<T> for Result<T, E> {
     fn hq_unwrap(self) -> (r: T) { self.unwrap() }
 }
 
-// std::mem::take: returns the old value (the replacement value T::default() is left unspecified)
+// std::mem::take: returns the old value and leaves T::default(); what the default is, is stated per type (Vec: empty)
+mod hq_take_axioms {
+    use super::*;
+    pub uninterp spec fn hq_default_left<T>(x: T) -> bool;
+    pub broadcast axiom fn axiom_vec_default_left<T>(v: Vec<T>)
+        ensures #[trigger] hq_default_left(v) ==> v@.len() == 0;
+}
+use hq_take_axioms::hq_default_left;
+//@ broadcast: hq_take_axioms::axiom_vec_default_left
 pub assume_specification<T: Default> [std::mem::take] (dest: &mut T) -> (r: T)
-    ensures r == *old(dest);
+    ensures r == *old(dest), hq_default_left(*final(dest));
 
 // N14 (diverge mode): an index *read* returns the element or diverges (out of range = panic)
 trait HqIndex<I> {
